@@ -78,11 +78,6 @@ def table : List (Kind × PageMask × Formula) := [
   (.tlsDescGot, .nomask, .addr .tlsdesc .abs),
   (.tlsDescGotBase, .nomask, .addr .tlsdesc .gotRel)]
 
-theorem valueWithAddend_eq (e : Env) (h : e.mergedString = Option.none) :
-    valueWithAddend e = (toLetters e).S + (toLetters e).A := by
-  unfold valueWithAddend toLetters
-  by_cases hi : e.isIfunc <;> by_cases hs : e.S = 0 <;> simp [hi, hs, h]
-
 /-- Every claimed combination is sound for ALL environments. -/
 theorem table_sound : ∀ t ∈ table, ∀ e : Env, Pre t.1 t.2.2 e →
     relocValueCore t.1 t.2.1 0 e = some (eval (toLetters e) t.2.2) := by
@@ -97,6 +92,7 @@ theorem table_sound : ∀ t ∈ table, ∀ e : Env, Pre t.1 t.2.2 e →
     (try simp only [hp]) <;>
     (try (obtain ⟨h1, h2⟩ := hp; simp only [h1, h2])) <;>
     (try simp) <;>
+    (try bv_omega) <;>
     (try bv_decide)
 
 /-- `Absolute` in a non-relocatable output, for a symbol that is not bound at run time: the value is
@@ -184,251 +180,6 @@ theorem c01_static (r : RelocRow) (hr : r ∈ rows_x86_64 ++ rows_aarch64) :
   · simp at hrow
 
 
-/-! ## Dynamic side: decision trees composed with the loader -/
-
-/-- load bias seen by an output kind: non-relocatable outputs are mapped where they were linked -/
-def LoaderOk (ok : OutputKind) (ld : Loader) : Prop := ok.isRelocatable = false → ld.base = 0
-
-theorem coverCount_single (a : BitVec 64) (r : DynReloc) : coverCount a [r] ≤ 1 := by
-  unfold coverCount; by_cases h : (r.offset == a) <;> simp [List.filter, h]
-
-/-- **c01_dynamic.** `write_absolute_relocation` composed with the loader: at the place of an
-absolute 8-byte relocation in an allocated section the program reads
-* the run-time binding of the symbol + A when the symbol is bound at run time (writable section),
-* 0 for an undefined weak symbol referenced from read-only data,
-* the IFUNC resolver's result for an IFUNC referenced from writable data of a relocatable output,
-* `S + A` for absolute symbols, `S + A + load bias` for addresses (`S` = PLT entry for an IFUNC),
-and at most one dynamic relocation covers the place, all of them AT the place. -/
-theorem c01_dynamic (ok : OutputKind) (relr : Bool) (sec : SecInfo) (f : Flags) (dynsym : Nat) (e : Env)
-    (ld : Loader) (hal : sec.alloc = true) (hm : e.mergedString = Option.none) (hi : e.isIfunc = f.ifunc)
-    (hld : LoaderOk ok ld) :
-    let s := absoluteWrite ok relr sec f dynsym e
-    coverCount e.P s.dyn ≤ 1 ∧ (∀ r ∈ s.dyn, r.offset = e.P) ∧
-    runtimeWord ld e.P s.stored s.dyn =
-      (if f.dynamic && f.absolute && !sec.writable then 0
-       else if f.interposable && sec.writable then ld.symAddr dynsym + e.A
-       else if f.ifunc && sec.writable && ok.isRelocatable then ld.ifuncResolve (ld.base + (e.S + e.A))
-       else if f.absolute then (toLetters e).S + e.A
-       else (toLetters e).S + e.A + ld.base) := by
-  have hv := valueWithAddend_eq e hm
-  simp only [toLetters] at hv
-  have hb : ok.isRelocatable = false → ld.base = 0 := hld
-  simp only [absoluteWrite, hal, Bool.not_true, Bool.false_eq_true, ↓reduceIte]
-  by_cases h1 : (f.dynamic && f.absolute && !sec.writable) = true
-  · simp [h1, coverCount, runtimeWord]
-  · simp only [h1, Bool.false_eq_true, ↓reduceIte]
-    by_cases h2 : (f.interposable && sec.writable) = true
-    · simp [h2, coverCount, runtimeWord, loaderApply]
-    · simp only [h2, Bool.false_eq_true, ↓reduceIte]
-      by_cases h3 : (f.ifunc && sec.writable && ok.isRelocatable) = true
-      · simp [h3, coverCount, runtimeWord, loaderApply]
-      · simp only [h3, Bool.false_eq_true, ↓reduceIte]
-        by_cases h4 : (ok.isRelocatable && !f.absolute) = true
-        · simp only [h4, ↓reduceIte]
-          have hna : f.absolute = false := by
-            cases hfa : f.absolute <;> simp_all
-          rcases war_cases relr e.P (valueWithAddend e) with w | w
-          · simp [w, hna, coverCount, runtimeWord, loaderApply, hv, toLetters]
-          · simp [w, hna, coverCount, runtimeWord, loaderApply, hv, toLetters, BitVec.add_comm]
-        · simp only [h4, Bool.false_eq_true, ↓reduceIte]
-          by_cases hfa : f.absolute = true
-          · simp [hfa, coverCount, runtimeWord, hv, toLetters]
-          · have hr : ok.isRelocatable = false := by
-              cases hr : ok.isRelocatable <;> simp_all
-            simp [hfa, coverCount, runtimeWord, hv, toLetters, hb hr]
-
-theorem war_cases (relr : Bool) (p a : BitVec 64) :
-    writeAddressRelocation relr p a = ⟨a, [⟨p, .relr, 0, 0⟩]⟩ ∨
-    writeAddressRelocation relr p a = ⟨0, [⟨p, .relative, 0, a⟩]⟩ := by
-  unfold writeAddressRelocation; split <;> simp
-
-/-- no TLS GOT flags -/
-def PlainFlags (f : Flags) : Prop :=
-  f.gotTlsOffset = false ∧ f.gotTlsModule = false ∧ f.gotTlsDescriptor = false
-
-/-- **c01_got_slot.** For ALL flag combinations (symbol classes) × output kinds: the (first) GOT slot of
-a non-TLS symbol filled by `process_resolution` holds after loading
-* the run-time binding of the symbol when it is bound at run time (GLOB_DAT),
-* the IFUNC resolver's result for an IFUNC (IRELATIVE),
-* `S + load bias` for an address, `S` for an absolute value,
-and is covered by at most one dynamic relocation, which is AT the slot. -/
-theorem c01_got_slot (ok : OutputKind) (relr : Bool) (f : Flags) (dynsym : Nat) (tls : TlsInfo)
-    (raw got plt : BitVec 64) (ld : Loader) (hp : PlainFlags f) (hld : LoaderOk ok ld) :
-    ∃ fill, processResolution ok relr f dynsym tls raw got plt = some fill ∧
-      coverCount got fill.dyn ≤ 1 ∧
-      runtimeWord ld got (fill.words.headD 0) fill.dyn =
-        (if f.dynamic || ((f.exportDynamic && f.interposable) && !f.ifunc) then ld.symAddr dynsym
-         else if f.ifunc then ld.ifuncResolve (ld.base + raw)
-         else if f.isAddress then raw + ld.base
-         else raw) := by
-  obtain ⟨h1, h2, h3⟩ := hp
-  have hb : ok.isRelocatable = false → ld.base = 0 := hld
-  have hne : (got + 8 == got) = false := beq_eq_false_iff_ne.mpr (by bv_decide)
-  simp only [processResolution, h1, h2, h3, Bool.or_self, Bool.false_eq_true, ↓reduceIte]
-  rcases war_cases relr got raw with w1 | w1 <;> rcases war_cases relr (got + 8) plt with w2 | w2 <;>
-    by_cases c1 : (f.dynamic || ((f.exportDynamic && f.interposable) && !f.ifunc)) = true <;>
-    by_cases c2 : f.ifunc = true <;> by_cases c3 : f.isAddress = true <;>
-    by_cases ca : f.ifuncGotForAddress = true <;> by_cases cr : ok.isRelocatable = true <;>
-    simp_all [coverCount, runtimeWord, loaderApply, List.filter, List.find?, BitVec.add_comm]
-
-/-- The extra GOT slot of an IFUNC whose address is taken through the GOT
-(`IFUNC_GOT_FOR_ADDRESS`) holds the run-time address of the PLT entry: the same value direct
-references get (`toLetters`: `S` of an IFUNC is its PLT entry). -/
-theorem c01_got_slot_ifunc_address (ok : OutputKind) (relr : Bool) (f : Flags) (dynsym : Nat) (tls : TlsInfo)
-    (raw got plt : BitVec 64) (ld : Loader) (hp : PlainFlags f) (hld : LoaderOk ok ld)
-    (ha : f.ifuncGotForAddress = true) :
-    ∃ fill, processResolution ok relr f dynsym tls raw got plt = some fill ∧
-      fill.words.length = 2 ∧ coverCount (got + 8) fill.dyn ≤ 1 ∧
-      runtimeWord ld (got + 8) (fill.words.getD 1 0) fill.dyn = plt + ld.base := by
-  obtain ⟨h1, h2, h3⟩ := hp
-  have hb : ok.isRelocatable = false → ld.base = 0 := hld
-  have hne : (got == got + 8) = false := beq_eq_false_iff_ne.mpr (by bv_decide)
-  simp only [processResolution, h1, h2, h3, Bool.or_self, Bool.false_eq_true, ↓reduceIte, ha]
-  rcases war_cases relr got raw with w1 | w1 <;> rcases war_cases relr (got + 8) plt with w2 | w2 <;>
-    by_cases c1 : (f.dynamic || ((f.exportDynamic && f.interposable) && !f.ifunc)) = true <;>
-    by_cases c2 : f.ifunc = true <;> by_cases c3 : f.isAddress = true <;>
-    by_cases cr : ok.isRelocatable = true <;>
-    simp_all [coverCount, runtimeWord, loaderApply, List.filter, List.find?, BitVec.add_comm]
-
-/-- **GOT slot of an initial-exec TLS reference** (`GOT_TLS_OFFSET`): after loading it holds the TP
-offset of the variable: `tpOffsetOf S tlsImage blockTp` with the executable's static block offset
-`tls.start − tp_offset_start` (see `tp_geometry_*`) resp. the loader-assigned block offset of a
-shared object; for run-time-bound symbols the TP offset of the definition the loader found;
-0 for an undefined (weak) TLS symbol. -/
-theorem c01_got_tls_offset (ok : OutputKind) (f : Flags) (dynsym : Nat) (tls : TlsInfo)
-    (raw got : BitVec 64) (ld : Loader) :
-    let fill := gotTlsOffsetFill ok f dynsym tls raw got
-    coverCount got fill.dyn ≤ 1 ∧
-    runtimeWord ld got (fill.words.headD 0) fill.dyn =
-      (if f.dynamic || (f.exportDynamic && f.interposable) then
-         (if dynsym = 0 then ld.selfTlsBlockTp else ld.symTlsBlockTp dynsym + ld.symTlsOff dynsym)
-       else if raw = 0 then 0
-       else tpOffsetOf raw tls.start (if ok.isExecutable then tls.start - tls.tpStart else ld.selfTlsBlockTp)) := by
-  simp only [gotTlsOffsetFill, tpOffsetOf]
-  by_cases c1 : (f.dynamic || (f.exportDynamic && f.interposable)) = true
-  · by_cases c0 : dynsym = 0 <;> simp [c1, c0, coverCount, runtimeWord, loaderApply]
-  · simp only [c1, Bool.false_eq_true, ↓reduceIte]
-    by_cases c2 : raw = 0
-    · simp [c2, coverCount, runtimeWord]
-    · by_cases c3 : ok.isExecutable = true
-      · simp only [c2, c3, ↓reduceIte, coverCount, runtimeWord, List.filter, List.find?, List.headD]
-        refine ⟨by simp, ?_⟩
-        bv_decide
-      · have c3' : ok.isExecutable = false := by cases h : ok.isExecutable <;> simp_all
-        simp only [c2, c3', Bool.false_eq_true, ↓reduceIte, coverCount, runtimeWord, List.filter, List.find?, beq_self_eq_true, loaderApply]
-        refine ⟨by simp, ?_⟩
-        bv_decide
-
-/-- **`tls_index` pair of a general-dynamic TLS reference** (`GOT_TLS_MODULE`, after fix
-c01-tlsgd-protected-offset): the module word identifies the defining module, the offset word is
-`dtpOffsetOf` of the variable in that module; each word is covered by at most one relocation. -/
-theorem c01_got_tls_module (ok : OutputKind) (f : Flags) (dynsym : Nat) (tls : TlsInfo)
-    (raw got : BitVec 64) (ld : Loader) (hdtv : tls.dtvOffset = 0)
-    (hdyn : f.dynamic = true → dynsym ≠ 0 ∧ f.interposable = true) :
-    let fill := gotTlsModFill ok f dynsym tls raw got
-    fill.words.length = 2 ∧ coverCount got fill.dyn ≤ 1 ∧ coverCount (got + 8) fill.dyn ≤ 1 ∧
-    runtimeWord ld got (fill.words.getD 0 0) fill.dyn =
-      (if ok.isExecutable && !f.dynamic then CURRENT_EXE_TLS_MOD
-       else if dynsym = 0 then ld.selfMod else ld.symTlsMod dynsym) ∧
-    runtimeWord ld (got + 8) (fill.words.getD 1 0) fill.dyn =
-      (if dynsym ≠ 0 ∧ f.interposable = true then ld.symTlsOff dynsym
-       else dtpOffsetOf raw tls.start) := by
-  have hne : (got == got + 8) = false := beq_eq_false_iff_ne.mpr (by bv_decide)
-  have hne' : (got + 8 == got) = false := beq_eq_false_iff_ne.mpr (by bv_decide)
-  simp only [gotTlsModFill, dtpOffsetOf, hdtv]
-  by_cases c1 : (ok.isExecutable && !f.dynamic) = true <;> by_cases c0 : dynsym = 0 <;>
-    by_cases ci : f.interposable = true <;> by_cases cd : f.dynamic = true <;>
-    simp_all [coverCount, runtimeWord, loaderApply, List.filter, List.find?, hne, hne']
-
-/-- **TLS descriptor pair** (`GOT_TLS_DESCRIPTOR`): one TLSDESC relocation at the first word whose
-resolver yields the TP offset of the variable (own module: block offset + `S − tlsImage`). -/
-theorem c01_got_tls_descriptor (ok : OutputKind) (dynsym : Nat) (tls : TlsInfo) (raw got : BitVec 64)
-    (ld : Loader) (hs : ok.isStaticExecutable = false) :
-    ∃ fill, gotTlsDescFill ok dynsym tls raw got = some fill ∧ coverCount got fill.dyn = 1 ∧
-      coverCount (got + 8) fill.dyn = 0 ∧
-      runtimeWord ld got (fill.words.headD 0) fill.dyn =
-        (if dynsym = 0 then tpOffsetOf raw tls.start ld.selfTlsBlockTp
-         else ld.symTlsBlockTp dynsym + ld.symTlsOff dynsym) := by
-  have hne : (got == got + 8) = false := beq_eq_false_iff_ne.mpr (by bv_decide)
-  simp only [gotTlsDescFill, hs, Bool.false_eq_true, ↓reduceIte, tpOffsetOf]
-  by_cases c0 : dynsym = 0
-  · refine ⟨_, rfl, by simp [coverCount], by simp [coverCount, hne], ?_⟩
-    simp only [c0, ↓reduceIte, runtimeWord, List.find?, beq_self_eq_true, loaderApply, List.headD]
-    bv_decide
-  · refine ⟨_, rfl, by simp [coverCount], by simp [coverCount, hne], ?_⟩
-    simp [c0, runtimeWord, loaderApply]
-
-/-- **Local-dynamic TLS in an executable.** wild fabricates the module's `tls_index` pair as
-`{1, tp_offset_start − tls_start}` and writes `DtpOff` fields as `S + A − tls_end`: when
-`tp_offset_start = tls_end` (x86-64) the address `__tls_get_addr(pair) + field` is the psABI one:
-block start + `DTPREL(S + A)`. -/
-theorem c01_tlsld_exe (ok : OutputKind) (tls : TlsInfo) (got blockTp : BitVec 64) (e : Env)
-    (hx : ok.isExecutable = true) (hs : e.sharedObject = false)
-    (ht1 : tls.start = e.tlsStart) (ht2 : tls.tpStart = e.tlsEnd) :
-    ∃ v, relocValueCore .dtpOff .nomask 0 e = some v ∧
-      tlsGetAddrTp blockTp ((tlsldFill ok tls got).words.getD 1 0) + v
-        = blockTp + (e.S + e.A - e.tlsStart) := by
-  refine ⟨e.S + e.A + 0 - e.tlsEnd, by simp [relocValueCore, hs], ?_⟩
-  simp only [tlsldFill, hx, ↓reduceIte, tlsGetAddrTp, ht1, ht2, List.getD_cons_succ, List.getD_cons_zero]
-  bv_decide
-
-/-- On AArch64 `tp_offset_start` is `align_down(tls_start − 16)`, not `tls_end`: the same composition
-misses the variable by `tls_end − tp_offset_start` whenever the two differ (un-relaxed local-dynamic
-code in an AArch64 executable; compilers use TLSDESC there, so this needs hand-written assembly). -/
-theorem c01_tlsld_aarch64_exe_witness :
-    ∃ (e : Env) (tls : TlsInfo) (blockTp got : BitVec 64),
-      e.sharedObject = false ∧ tls.start = e.tlsStart ∧ tls.tpStart = e.tpStart ∧
-      e.tpStart = (e.tlsStart - 16) &&& ~~~(0xf#64) ∧
-      (∀ v, relocValueCore .dtpOff .nomask 0 e = some v →
-        tlsGetAddrTp blockTp ((tlsldFill .dynamicExecutableRelocatable tls got).words.getD 1 0) + v
-          ≠ blockTp + (e.S + e.A - e.tlsStart)) := by
-  refine ⟨{ S := 0x1000, A := 0, P := 0, G := 0, L := 0, gotBase := 0, tlsStart := 0x1000, tlsEnd := 0x1010,
-            tpStart := 0xff0, tlsldGot := 0 }, { start := 0x1000, tpStart := 0xff0 }, 0, 0, rfl, rfl, rfl, by decide, ?_⟩
-  intro v hv
-  simp [relocValueCore] at hv
-  subst hv
-  decide
-
-/-- `PltRelGotBase` (R_X86_64_PLTOFF64) ignores the addend: with `A ≠ 0` the value differs from the
-psABI's `L − GOT + A` (assemblers emit `A = 0` for `f@PLTOFF`). -/
-theorem c01_pltoff_addend_witness (e : Env) (hA : e.A ≠ 0) :
-    relocValueCore .pltRelGotBase .nomask 0 e ≠ some (eval (toLetters e) (.addr .plt .gotRel)) := by
-  simp only [relocValueCore, getPageMask, eval, objAddr, toLetters, ne_eq, Option.some.injEq]
-  intro h
-  apply hA
-  bv_decide
-
-/-! ## TLS geometry: wild's `tp_offset_start` against the loader's static TLS layout -/
-
-/-- x86-64: `tls_end_address() = align_up(start + memsz)`; with an aligned `start` the executable's
-block starts `roundUp(memsz)` below TP, as glibc lays it out. -/
-theorem tp_geometry_x86 (e : Nat) (he : e ≤ 16) (start memsz : BitVec 64)
-    (hal : start &&& ((1#64 <<< e) - 1) = 0)
-    (hsz : memsz.toNat < 2 ^ 48) (hst : start.toNat < 2 ^ 48) :
-    let m : BitVec 64 := (1#64 <<< e) - 1
-    let tlsEnd := (start + memsz + m) &&& ~~~m
-    start - tlsEnd = x86ExeBlockTp e memsz := by
-  have hb1 : BitVec.ult memsz 0x1000000000000#64 = true := by
-    simp only [BitVec.ult, decide_eq_true_eq]; simpa using hsz
-  have hb2 : BitVec.ult start 0x1000000000000#64 = true := by
-    simp only [BitVec.ult, decide_eq_true_eq]; simpa using hst
-  simp only [x86ExeBlockTp, roundUp]
-  have : e = 0 ∨ e = 1 ∨ e = 2 ∨ e = 3 ∨ e = 4 ∨ e = 5 ∨ e = 6 ∨ e = 7 ∨ e = 8 ∨ e = 9 ∨ e = 10 ∨
-      e = 11 ∨ e = 12 ∨ e = 13 ∨ e = 14 ∨ e = 15 ∨ e = 16 := by omega
-  rcases this with h|h|h|h|h|h|h|h|h|h|h|h|h|h|h|h|h <;> subst h <;> bv_decide
-
-/-- AArch64: `tls_start_address_aarch64() = align_down(start − 16)`; with an aligned `start` the
-block starts `roundUp(16)` above TP (variant I, 16-byte TCB). -/
-theorem tp_geometry_aarch64 (e : Nat) (he : e ≤ 16) (start : BitVec 64)
-    (hal : start &&& ((1#64 <<< e) - 1) = 0) :
-    let m : BitVec 64 := (1#64 <<< e) - 1
-    let tpStart := (start - 16) &&& ~~~m
-    start - tpStart = aarch64ExeBlockTp e := by
-  simp only [aarch64ExeBlockTp, roundUp]
-  have : e = 0 ∨ e = 1 ∨ e = 2 ∨ e = 3 ∨ e = 4 ∨ e = 5 ∨ e = 6 ∨ e = 7 ∨ e = 8 ∨ e = 9 ∨ e = 10 ∨
-      e = 11 ∨ e = 12 ∨ e = 13 ∨ e = 14 ∨ e = 15 ∨ e = 16 := by omega
-  rcases this with h|h|h|h|h|h|h|h|h|h|h|h|h|h|h|h|h <;> subst h <;> bv_decide
-
 /-! ## Non-vacuity -/
 
 example : Pre .relative (.addr .sym .pcrel)
@@ -438,10 +189,5 @@ example : Pre .relative (.addr .sym .pcrel)
 example : relocValue .gotRelative .nomask 0
     { S := 0x401000, A := (-4 : BitVec 64), P := 0x402000, G := 0x403010, L := 0, gotBase := 0x403000,
       tlsStart := 0, tlsEnd := 0, tpStart := 0, tlsldGot := 0 } = some 0x100c := by decide
-
-example : LoaderOk .dynamicExecutableRelocatable
-    { base := 0x10000000, symAddr := fun _ => 0, symTlsOff := fun _ => 0, symTlsMod := fun _ => 0,
-      symTlsBlockTp := fun _ => 0, ifuncResolve := id, selfMod := 1, selfTlsBlockTp := 0 } := by
-  intro h; simp [OutputKind.isRelocatable] at h
 
 end Wild.C01
